@@ -299,6 +299,24 @@ fn maps_long(thorough: bool, threads: usize, alpha: &[X]) -> Ctx {
     })
 }
 
+/// infinities are ordinary values for shifts, fills, clips and abs; a difference or ratio of two infinities is
+/// not a number, hence null
+fn inf_alpha() -> Vec<X> {
+    vec![None, Some(f64::NEG_INFINITY), Some(0.0), Some(1.0), Some(f64::INFINITY)]
+}
+fn check_inf(word: &[u8], ctx: &mut Ctx) {
+    let fam = "maps-inf";
+    let alpha = inf_alpha();
+    let x = decode(word, &alpha);
+    ctx.states += 1;
+    ctx.transitions += 1;
+    ctx.fam(fam).states += 1;
+    ctx.nontrivial(fam, hash_bytes(word));
+    check_ty::<f64>(fam, "f64", word, &x, &alpha, ctx, true, num_runner::<f64>);
+    check_ty::<f32>(fam, "f32", word, &x, &alpha, ctx, true, num_runner::<f32>);
+    check_ty::<Option<f64>>(fam, "Option<f64>", word, &x, &alpha, ctx, false, any_runner::<Option<f64>>);
+}
+
 /// every NaN is the same null (DESIGN 5.4): the float encodings with the nulls written as the run-time NaN of
 /// x86-64 (sign bit set) and as both NaN kinds mixed
 fn check_nan_kinds(word: &[u8], alpha: &[X], ctx: &mut Ctx) {
@@ -325,7 +343,9 @@ fn main() {
             std::process::exit(2)
         });
         let mut ctx = Ctx::new();
-        if stored["case"]["family"] == "maps-nan-kinds" {
+        if stored["case"]["family"] == "maps-inf" {
+            check_inf(&syms_from_json(&stored["case"]["word"]), &mut ctx);
+        } else if stored["case"]["family"] == "maps-nan-kinds" {
             check_nan_kinds(&syms_from_json(&stored["case"]["word"]), &fam.alpha, &mut ctx);
         } else if stored["case"]["family"] == "maps-long" {
             let x = word_from_json(&stored["case"]["series"]);
@@ -338,6 +358,8 @@ fn main() {
     }
     let mut total = explore_tree(&fam, run.threads);
     total.merge(maps_long(!run.quick(), run.threads, &fam.alpha));
+    let inf_words = all_words_upto(inf_alpha().len(), run.pick(4, 5));
+    total.merge(par_items(&inf_words, run.threads, |w, ctx| check_inf(w, ctx)));
     let nan_words: Vec<Vec<u8>> = all_words_upto(fam.alpha.len(), run.pick(5, 6)).into_iter().filter(|w| w.contains(&0)).collect();
     total.merge(par_items(&nan_words, run.threads, |w, ctx| check_nan_kinds(w, &fam.alpha, ctx)));
     let meta = Meta {
